@@ -66,7 +66,9 @@ Init == /\ fld \in Fields
         /\ cur \in {""} \cup (IF fld.f \in {"32B", "60F"} THEN CurrencyTable ELSE {})
         /\ prec \in (IF cur # "" THEN {DecimalsOf(cur)} ELSE IF fld.cur THEN Precisions ELSE {2})
 
-        /\ sp \in Spellings /\ n \in IntDigits /\ f \in FracDigits
+        /\ sp \in Spellings /\ n \in IntDigits
+        \* a rate (field 36, 12d) has no currency to bound its fraction: up to 10 fraction digits fit
+        /\ f \in (IF fld.f = "36" THEN FracDigits \cup 6..10 ELSE FracDigits)
         /\ (sp \in OtherSpellings \ {"plus", "minus", "twosep", "space"}) => (n = 1 /\ f = 0)
         /\ (sp = "nocomma") => f = 0
         /\ (sp = "tiny") => (n = 1 /\ f >= 1 /\ (fld.f = "36" => f <= 4))
